@@ -3,12 +3,16 @@
 (property, demo package directory, what it needs to manifest — from the sub-agent's meta.txt)."""
 import sys, os, re, json, shutil
 pid = sys.argv[1]
-src = f'/tmp/mw/{pid}/seeded'
+wave = sys.argv[2] if len(sys.argv) > 2 else 'C'   # worktree prefix: C = first wave, D = second wave (ids continue at 4)
+off = 0 if wave == 'C' else 3
+src = f'/tmp/mw/{wave}{pid[1:]}/seeded'
 for k in sorted(os.listdir(src)):
     d = os.path.join(src, k)
     if not (os.path.isdir(d) and os.path.exists(os.path.join(d, 'patch.diff')) and os.path.exists(os.path.join(d, 'demo_test.go'))):
         continue
-    dst = f'/verif/seeded/{pid}-{k}'
+    if not k.isdigit():
+        continue
+    dst = f'/verif/seeded/{pid}-{int(k)+off}'
     os.makedirs(dst, exist_ok=True)
     shutil.copy(os.path.join(d, 'patch.diff'), dst)
     demo = open(os.path.join(d, 'demo_test.go')).read()
@@ -27,7 +31,7 @@ for k in sorted(os.listdir(src)):
     meta_txt = open(os.path.join(d, 'meta.txt')).read() if os.path.exists(os.path.join(d, 'meta.txt')) else ''
     files = sorted(set(re.findall(r'^\+\+\+ b/(\S+)', open(os.path.join(d, 'patch.diff')).read(), re.M)))
     meta = {
-        "id": f"{pid}-{k}", "property": pid, "demo_pkg_dir": pkgdir, "files_changed": files,
+        "id": f"{pid}-{int(k)+off}", "wave": 1 if wave == 'C' else 2, "property": pid, "demo_pkg_dir": pkgdir, "files_changed": files,
         "origin": "independent sub-agent given only the property text and a scratch worktree of /repo",
         "agent_notes": meta_txt[:6000],
     }
